@@ -10,7 +10,8 @@ def run(ctx):
     for i in range(8 if q else 64):
         cs.append(dict(seed=ctx.seed + 3000 + i, slots=[2, 8][i % 2], events=2, prims=4, emax=[30, 1000][i % 2], dets=0,
                        fluct=i % 2, scale=[0.3, 5, 50][i % 3], order=["none", "reindex_shuffle", "reindex_status"][i % 3],
-                       inflight=[0, 2][i % 2], maxsteps=60000, diag=0))
+                       inflight=[0, 2][i % 2], maxsteps=60000, diag=0, msc=[1, 0, 1][i % 3],
+                       field=[0, 1, 0.1, 0][i % 4]))
     tot, outs = coreloop.validate(ctx, cs, ["C05."], nshards=8)
     ctx.coverage.update({"states": st, "transitions": tr, "traces_validated_against_impl": tot["runs"],
                          "samples": coreloop.sample_records(outs, kinds=("Post",)), "evaluations": tot["steps"],
@@ -19,6 +20,8 @@ def run(ctx):
                                  "monotonicity, step > 0, step <= pre-step limit, step >= chord, volume = analytic box location, "
                                  "volume change only at a boundary step, status forward; distinct_nontrivial = distinct tracks",
                          "impl_stats": tot})
-    ctx.assumptions += ["volume oracle: analytic point-in-box for test/geocel/data/two-boxes.org.json (points within 1e-6 of a face undecided)",
+    ctx.assumptions += ["along-step variants: linear / uniform magnetic field x {no MSC, Urban MSC with a synthetic transport cross "
+                        "section} x mean / fluctuating loss; F-MSC-1 (MSC displacement in a field can exceed the step by <2%) is a known finding",
+                        "volume oracle: analytic point-in-box for test/geocel/data/two-boxes.org.json (points within 1e-6 of a face undecided)",
                         "orderings decided on dense ranks of the doubles; equalities on bit-exact tokens",
                         "zero-length physics-failure retry steps (C16) are exempt from the step-length clauses"]
